@@ -45,6 +45,7 @@ package store
 //@   ensures @nomatch err == nil && k == nil ==> !old(has(s, bytes(indexKey))) && !Ein(s)[bytes(indexKey)]
 //@   ensures @view sameview(s)
 //@   ensures @inv SI(s)
+//@   ensures @errkind err != types.ErrKeyExists
 //@   ensures @present-kept err == nil && k != nil ==> Ein(s)[bytes(indexKey)] && Eblk(s)[bytes(indexKey)] == keyof(blk)
 
 //@ func (s *Store) Get(key []byte) (value []byte, found bool, err error)  property C01
@@ -55,15 +56,20 @@ package store
 //@   ensures @view sameview(s)
 //@   ensures @inv SI(s)
 
+//@ macro noticeFresh(s) = s.flushNotice == old(s.flushNotice) || s.flushNotice == nil || fresh(s.flushNotice)
+
 //@ func (s *Store) flushTick()
 //@   modifies s.flushNotice, chan(s.flushNotice)
+//@   ensures @notice noticeFresh(s)
 
 //@ func (s *Store) Put(key []byte, value []byte) (err error)  property C01 C13
 //@   define IK() = ikey(bytes(key))
 //@   requires SI(s)
 //@   requires wfkey(bytes(key))
 //@   requires len(key) + len(value) < (1 << 31)
+//@   requires s.err != types.ErrKeyExists
 //@   modifies s.index.$Ein, s.index.$Eblk, s.index.Primary.$Rin, s.index.Primary.$Rkey, s.index.Primary.$Rval, s.index.Primary.$Rused, s.freelist.$F, s.flushNotice, chan(s.flushNotice)
+//@   ensures @exists err == types.ErrKeyExists ==> s.immutable && old(has(s, IK())) && sameview(s) && FL(s) == old(FL(s))
 //@   ensures @put err == nil ==> has(s, IK()) && val(s, IK()) == bytes(value)
 //@   ensures @others forall k Bytes :: k != IK() ==> has(s, k) == old(has(s, k)) && (has(s, k) ==> val(s, k) == old(val(s, k)))
 //@   ensures @err-view err != nil ==> sameview(s)
@@ -72,6 +78,7 @@ package store
 //@   ensures @same-noop err == nil && old(has(s, IK())) && old(val(s, IK())) == bytes(value) ==> Ein(s) == old(Ein(s)) && Eblk(s) == old(Eblk(s)) && Rin(s) == old(Rin(s))
 //@   ensures @freed-overwrite {C13} err == nil && old(has(s, IK())) && old(val(s, IK())) != bytes(value) ==> FL(s) == old(FL(s))[old(Eblk(s)[IK()]) := old(FL(s))[old(Eblk(s)[IK()])] + 1]
 //@   ensures @freed-none {C13} err != nil || !old(has(s, IK())) || old(val(s, IK())) == bytes(value) ==> FL(s) == old(FL(s))
+//@   ensures @notice noticeFresh(s)
 
 //@ func (s *Store) Remove(key []byte) (removed bool, err error)  property C01 C13
 //@   define IK() = ikey(bytes(key))
@@ -84,6 +91,7 @@ package store
 //@   ensures @inv SI(s)
 //@   ensures @freed {C13} err == nil && removed ==> FL(s) == old(FL(s))[old(Eblk(s)[IK()]) := old(FL(s))[old(Eblk(s)[IK()])] + 1]
 //@   ensures @freed-none {C13} err != nil || !removed ==> FL(s) == old(FL(s))
+//@   ensures @notice noticeFresh(s)
 
 //@ func (s *Store) Has(key []byte) (found bool, err error)  property C01
 //@   requires SI(s)
